@@ -18,7 +18,7 @@
 (* Texts are compared as token sequences produced by a pure lexer          *)
 (* (mnemonic, punctuation, numbers as decimal strings).                    *)
 (***************************************************************************)
-EXTENDS Integers, Sequences, FiniteSets, TLC
+EXTENDS Word, FiniteSets, TLC
 
 \* longest instruction in bytes per CPU, from the architecture documents; CPUs whose
 \* maximum cannot be stated from a document get the conservative 16, and the three
@@ -82,6 +82,32 @@ ReEncodes(e) == \A i \in 1..Len(e.walk) :
 C01Fix(e) == e.acc => Tiles(e) /\ ReEncodes(e)
 C01Why(e) == IF ~Tiles(e) THEN "walking the decoder over the emitted bytes does not consume exactly those bytes"
              ELSE "assembling the decoded text gives different bytes"
+
+-----------------------------------------------------------------------------
+(* C06: one instruction form probed with many operand values.              *)
+(* g = [cpu, probes] with probes a sequence of [v (8-byte word), acc, b]   *)
+
+\* the probe values: around every field boundary, closed under masking (for every
+\* 2^k + d it also contains d, so a wrapped value meets the value it collides with)
+ProbeKs == {3, 4, 5, 7, 8, 11, 12, 15, 16, 20, 23, 24, 31, 32}
+P2(k) == WShl(WOne(8), k)
+ProbeSet == {WZero(8), WOne(8), WOnes(8), WFromNat(8, 2), WFromInt(8, -2)}
+            \cup UNION {{WSub(P2(k), WOne(8)), P2(k), WAdd(P2(k), WOne(8)),
+                         WNeg(P2(k)), WSub(WNeg(P2(k)), WOne(8)), WAdd(WNeg(P2(k)), WOne(8))} : k \in ProbeKs}
+
+IsPow2(d) == ~WIsZero(d) /\ WIsZero(WAnd(d, WSub(d, WOne(8))))
+\* v1 < 0 <= v2 are the signed and the unsigned spelling of one k-bit field value
+SignedUnsignedPair(v1, v2) ==
+  /\ WIsNeg(v1) /\ ~WIsNeg(v2)
+  /\ LET d == WSub(v2, v1) IN
+     IsPow2(d) /\ WLtU(v2, d) /\ ~WLtS(v1, WNeg(WShrL(d, 1)))
+
+Collides(p, q) == p.acc /\ q.acc /\ p.v # q.v /\ p.b = q.b
+Legit(p, q) == SignedUnsignedPair(p.v, q.v) \/ SignedUnsignedPair(q.v, p.v)
+Injective(g) == \A i \in 1..Len(g.probes), j \in 1..Len(g.probes) :
+                  (i < j /\ Collides(g.probes[i], g.probes[j])) => Legit(g.probes[i], g.probes[j])
+Colliding(g) == {<<i, j>> \in (1..Len(g.probes)) \X (1..Len(g.probes)) :
+                   i < j /\ Collides(g.probes[i], g.probes[j]) /\ ~Legit(g.probes[i], g.probes[j])}
 
 \* expected encoding from an architecture module (Msp430Enc / Rv32iEnc)
 C01Arch(e) == e.acc /\ e.b = e.expect
